@@ -3,10 +3,12 @@ package main
 import (
 	"bufio"
 	"bytes"
+	"container/list"
 	"crypto/sha1"
 	"fmt"
 	"os"
 	"path/filepath"
+	"reflect"
 	"runtime"
 	"strconv"
 	"strings"
@@ -41,6 +43,9 @@ func lunarDigest(l *calendar.Lunar) string {
 	h := sha1.New()
 	fmt.Fprintf(h, "%s|%s|%v|", l.ToFullString(), l.GetSolar().ToYmdHms(), lun(l))
 	fmt.Fprintf(h, "%s|%s|%s|", l.GetEightChar().String(), l.GetPrevJieQi().GetName(), l.GetNextJieQi().GetSolar().ToYmdHms())
+	// value objects and lists handed out to the caller (must be the caller's own: see scribble)
+	fmt.Fprintf(h, "%s|%s|%s|%s|%s|%s|", callRender(l.GetShuJiu()), callRender(l.GetFu()), callRender(l.GetFestivals()), callRender(l.GetOtherFestivals()),
+		callRender(l.GetDayNineStar()), callRender(l.GetTime().GetNineStar()))
 	for _, row := range termTable(l) {
 		fmt.Fprintf(h, "%v;", row)
 	}
@@ -218,14 +223,66 @@ func c09Call(id int) (d string, pan bool) {
 			s, _ := safeSolar(2034, 1, 5, 0, 0, 0)
 			l := s.GetLunar()
 			d = lunarDigest(l) + fmt.Sprint(l.GetDayNineStar().GetIndex(), l.GetFoto().GetYear(), l.GetShuJiu() != nil)
+		case 9:
+			// a caller that writes into everything it was handed: every public setter of every object returned by the
+			// accessors of these dates is called with garbage, every returned list is extended.  The objects belong to
+			// the caller; no later call may see any of it.
+			for _, ymd := range [][6]int{{2033, 12, 25, 12, 0, 0}, {2034, 1, 5, 0, 0, 0}, {2020, 5, 23, 10, 0, 0}} {
+				s, _ := safeSolar(ymd[0], ymd[1], ymd[2], ymd[3], ymd[4], ymd[5])
+				scribble(s.GetLunar())
+			}
+			d = "scribbled"
 		}
 	})
 	return
 }
 
+// scribble calls every Set* method (one argument of a basic kind) of every struct pointer the zero-argument
+// accessors of x return, and appends to every *list.List they return
+func scribble(x interface{}) {
+	for _, r := range callZeroArg(x, nil) {
+		if r.panic || !r.val.IsValid() {
+			continue
+		}
+		v := r.val
+		if v.Kind() == reflect.Interface && !v.IsNil() {
+			v = v.Elem()
+		}
+		if v.Kind() != reflect.Ptr || v.IsNil() {
+			continue
+		}
+		if l, ok := v.Interface().(*list.List); ok {
+			l.PushBack("污")
+			continue
+		}
+		if v.Elem().Kind() != reflect.Struct {
+			continue
+		}
+		t := v.Type()
+		for i := 0; i < t.NumMethod(); i++ {
+			mt := t.Method(i)
+			if !strings.HasPrefix(mt.Name, "Set") || mt.Type.NumIn() != 2 {
+				continue
+			}
+			var arg reflect.Value
+			switch mt.Type.In(1).Kind() {
+			case reflect.String:
+				arg = reflect.ValueOf("污")
+			case reflect.Int:
+				arg = reflect.ValueOf(7)
+			case reflect.Bool:
+				arg = reflect.ValueOf(true)
+			default:
+				continue
+			}
+			try(func() { v.Method(i).Call([]reflect.Value{arg}) })
+		}
+	}
+}
+
 func c09Hist(c *ctx) {
 	maxLen := c.argInt("len", 4)
-	n := 9
+	n := 10
 	refD := make([]string, n)
 	refP := make([]bool, n)
 	for i := 0; i < n; i++ {
